@@ -25,8 +25,11 @@ def make_plan(seed: int, tier: str, opts: dict) -> dict:
     if not wall:
         common.add_reconfig(r, spec, eps)
     hot = r.choice([0.0, 0.0, 0.15, 0.4])  # pre-emption concentrated on lines touching shared lifecycle/queue fields
-    return dict(hot_rate=hot, spec=spec, seed=seed, episodes=eps, clock="wall" if wall else "sim",
+    plan = dict(hot_rate=hot, spec=spec, seed=seed, episodes=eps, clock="wall" if wall else "sim",
                 line_rate=r.choice([0.0, 0.0025, 0.01]) if tier == "thorough" else 0.0)
+    if wall:
+        plan["pause_rate"] = r.choice([0.0, 0.003])  # the user thread is descheduled inside lifecycle calls while the wall clock runs on
+    return plan
 
 
 def judge(plan, ro, checker):
